@@ -453,6 +453,36 @@ func runC02(c *rt.Ctx) {
 			w.ClassN("verbs-under-default-format", 1)
 		})
 	}
+	// one number rendered again and again while DefaultFormat is switched back and forth, on one goroutine (a text kept
+	// for a number that is asked for repeatedly must follow the configuration)
+	c.Serial("default-format-switched-between-repeated-calls", func(w *rt.W) {
+		for _, n := range []uint64{1994, 444, 3999, 9, 4000} {
+			for _, pair := range [][2]int{{0, 127}, {127, 0}, {64, 63}, {0, 64}, {7, 56}} {
+				fa, ra := romanFlags(pair[0])
+				fb, rb := romanFlags(pair[1])
+				step := func(f roman.Format, rf ref.RomanFlags, times int, when string) {
+					roman.DefaultFormat = f
+					for k := 0; k < times; k++ {
+						num := roman.Number(n)
+						want := ref.RomanFormat(n, rf)
+						mt, _ := num.MarshalText()
+						w.Eval(3)
+						if s := num.String(); s != want || string(mt) != want || fmt.Sprintf("%s", num) != want {
+							w.Fail("text-does-not-follow-default-format", "dfswitch", rt.Args("n", n, "formats", fmt.Sprint(pair), "when", fmt.Sprintf("%s, call %d", when, k)), fmt.Sprint(s, " / ", string(mt)), want, "String/MarshalText/%s must give the numeral of the current DefaultFormat")
+							return
+						}
+					}
+				}
+				step(fa, ra, 12, "under the first format")
+				step(fb, rb, 1, "after switching to the second")
+				step(fa, ra, 2, "after switching back")
+				step(fb, rb, 12, "under the second format")
+				step(fa, ra, 1, "after switching back again")
+				w.ClassN("default-format-switched-between-repeated-calls", 1)
+			}
+		}
+	})
+	c.Require("default-format-switched-between-repeated-calls", 25)
 	roman.DefaultFormat = old
 
 	// configuration: the package-level Formatter replaced by one that fails (for every number, or only
